@@ -15,12 +15,13 @@ TRANSLATOR_FALLBACK = True
 RULE = ("random lens lists (0-7 lenses, all constructible likelihood types mixed, per-lens IFU flag, LOS assignment, "
         "kinematic scaling over a_ani and/or gamma_pl, per-lens overrides of global settings), random global-model "
         "dictionaries (whitelisted and non-whitelisted keys), sharp hyper-parameters; checks: sum of single-lens objects, "
-        "shuffle with slope re-ordering, perturbation of inapplicable hyper-parameters, gamma_pl_num, num_data, additive "
-        "custom prior; distinct = (multiset of (type, flags), global keys) signature")
+        "shuffle with slope re-ordering, perturbation of inapplicable hyper-parameters, gamma_pl_num, num_data, merged "
+        "settings stated independently (non-default global choices, non-zero scatters, same stream), additivity of the "
+        "supernova / external-chain / custom-prior terms on all on/off combinations through CosmoLikelihood; distinct = (multiset of (type, flags), global keys) signature")
 ASSUMPTIONS = [
     "lens terms are compared at sharp hyper-parameters (scatter is covered by C04)",
     "merged settings are only used as **kwargs, so dictionary order is not observable (model: association list)",
-    "SNe and chain-KDE terms are covered by C11 / C13; here the additive assembly is checked with a custom prior",
+    "the VALUES of the SNe and chain-KDE terms are covered by C11 / C13; here their independent, additive assembly with the lens sample and a custom prior is checked on all on/off combinations",
 ]
 TRUSTED = ["hand-written model HierArc/Model/Sample.lean + Model/Lens.lean tied by differential execution",
            "translator/tables.py (whitelist, dispatch table, num_data kinds)"]
@@ -375,15 +376,18 @@ def run(ctx, res):
         meta.append((case, sample, terms, total, merged_impl, nd_list, prior, t))
     # additive custom prior through CosmoLikelihood
     for t in range(ctx.n(6, 40)):
+        import random
+        cseed = rng.randrange(2 ** 31)
         try:
-            f = cosmo_additive(rng)
+            f = cosmo_additive(random.Random(cseed))
         except Exception as e:  # noqa
             res.notes.append("CosmoLikelihood additive check failed to run: %r" % (e,))
+            res.count("cosmo_additive_failed_to_run")
             continue
         res.evaluations += 1
         res.count("cosmo_additive")
         if f:
-            res.violation("CosmoLikelihood.likelihood:custom-prior-not-additive", f, {"cosmo_additive": True})
+            res.violation("CosmoLikelihood.likelihood:terms-not-additive", f, {"cosmo_additive": True, "t": t, "seed": cseed})
     if ctx.search_mode:
         return
     outs = run_driver(lines)
@@ -411,18 +415,54 @@ def run(ctx, res):
 
 
 def cosmo_additive(rng):
-    """CosmoLikelihood.likelihood(args) with a custom prior = without + prior value"""
+    """CosmoLikelihood.likelihood(args) is the sum of the lens-sample, supernova, external-chain and custom-prior terms,
+    each entering INDEPENDENTLY: for a random point and every subset S of {supernovae, chain, prior},
+    L(lenses + S) - L(lenses) = sum over t in S of (L(lenses + {t}) - L(lenses)); lenses may be absent."""
+    import itertools
+    import warnings
     from hierarc.Likelihood.cosmo_likelihood import CosmoLikelihood
+    from hierarc.Likelihood.KDELikelihood.chain import Chain
     lenses = [dict(z_lens=0.5, z_source=1.5, likelihood_type="DdtGaussian", ddt_mean=rng.uniform(3000, 6000), ddt_sigma=300.0)
-              for _ in range(rng.choice([1, 2, 3]))]
+              for _ in range(rng.choice([0, 1, 2, 3]))]
     c = rng.uniform(-5, 5)
-    kb = dict(kwargs_lower_cosmo={"h0": 10, "om": 0.05}, kwargs_upper_cosmo={"h0": 200, "om": 0.9})
-    a = CosmoLikelihood(copy.deepcopy(lenses), "FLCDM", {}, kb)
-    b = CosmoLikelihood(copy.deepcopy(lenses), "FLCDM", {}, kb, custom_prior=lambda *a_, **k_: c)
-    x = [rng.uniform(50, 90), rng.uniform(0.2, 0.4)]
-    va, vb = a.likelihood(x), b.likelihood(x)
-    if not close(vb, va + c, 1e-10):
-        return "likelihood with custom prior %r != likelihood %r + prior %r" % (vb, va, c)
+    nsn = rng.choice([3, 6])
+    zs = sorted(rng.uniform(0.02, 0.9) for _ in range(nsn))
+    sne_kw = dict(mag_mean=np.array([24 + 5 * math.log10(z) + rng.gauss(0, 0.1) for z in zs]),
+                  cov_mag=np.diag([0.15 ** 2] * nsn), zhel=np.array(zs), zcmb=np.array(zs))
+    nch = 400
+    with warnings.catch_warnings():
+        warnings.simplefilter("ignore")
+        chain = Chain("kw", "probe", {"h0": np.array([rng.gauss(70, 4) for _ in range(nch)]),
+                                      "om": np.array([rng.gauss(0.3, 0.04) for _ in range(nch)])}, np.ones(nch), "FLCDM", rescale=True)
+    kb = dict(kwargs_lower_cosmo={"h0": 10, "om": 0.05}, kwargs_upper_cosmo={"h0": 200, "om": 0.9},
+              kwargs_lower_source={"mu_sne": 0}, kwargs_upper_source={"mu_sne": 50})
+    x = [rng.uniform(60, 80), rng.uniform(0.25, 0.35), rng.uniform(18, 20)]
+
+    def value(sne, kde, prior):
+        extra = {}
+        if sne:
+            extra.update(sne_likelihood="CUSTOM", kwargs_sne_likelihood=copy.deepcopy(sne_kw))
+        if kde:
+            extra.update(KDE_likelihood_chain=copy.deepcopy(chain), kwargs_kde_likelihood=dict(likelihood_type="kde_full"))
+        if prior:
+            extra.update(custom_prior=lambda *a_, **k_: c)
+        with warnings.catch_warnings():
+            warnings.simplefilter("ignore")
+            cl = CosmoLikelihood(copy.deepcopy(lenses), "FLCDM", dict(sne_apparent_m_sampling=True, sne_distribution="NONE"), copy.deepcopy(kb),
+                                 interpolate_cosmo=False, **extra)
+            return float(np.squeeze(cl.likelihood(list(x))))
+    base = value(False, False, False)
+    single = {"sne": value(True, False, False) - base, "kde": value(False, True, False) - base, "prior": value(False, False, True) - base}
+    if not close(single["prior"], c, 1e-9):
+        return "likelihood with custom prior changes by %r, the prior value is %r" % (single["prior"], c)
+    for on in itertools.product([False, True], repeat=3):
+        if sum(on) < 2:
+            continue
+        got = value(*on) - base
+        want = sum(single[k] for k, o in zip(("sne", "kde", "prior"), on) if o)
+        if not close(got, want, 1e-8, atol=1e-8):
+            return ("with %s configured together (%d lenses) the log-probability exceeds the lens term by %r, the separately "
+                    "measured terms add up to %r" % ([k for k, o in zip(("supernovae", "chain", "prior"), on) if o], len(lenses), got, want))
     return None
 
 
@@ -430,7 +470,7 @@ def replay(ctx, data):
     import random
     inp = data["input"]
     if inp.get("cosmo_additive"):
-        f = cosmo_additive(random.Random(0))
+        f = cosmo_additive(random.Random(inp.get("seed", 0)))
         return bool(f), str(f)
     case = dec_case(inp)
     fails = oracle(case, random.Random(0))[0]
